@@ -104,11 +104,18 @@ def ownership_part(ck, tier):
     ck.sample({"part": "ownership", "interleaving": list(orders[len(orders) // 2]), "classes": 5})
 
 
-def pt_part(ck, tier):
+def pt_part(ck, tier, unforced=False):
     s = seed()
     scen = [("c03_n3", dict(temps=[1, 2, 4], starts=[[-3, 4], [4, -3], [0, 1]], kind="gibbs", display=True, seed=s + 31, force="accept",
                             prog=[["steps", 2], ["swap"], ["return"], ["steps", 3], ["swap"], ["swap"], ["steps", 1], ["return"], ["shutdown"]],
                             delays=[0.0, 0.0, 0.0]))]
+    if unforced:
+        # the exchange decision itself (C01: accept with probability min(1, exp((b_i - b_j)(E_i - E_j)))) needs the real,
+        # quantised draws, here placed next to the powers of two where the decision changes; four levels so that pairs two and
+        # three rungs apart are proposed as well
+        scen.append(("c01_n4_draws", dict(temps=[1, 1, 2, 4], starts=[[-3, 4], [4, -3], [0, 1], [3, 3]], kind="gibbs", display=False,
+                                          seed=s + 33, force="edge", prog=[["steps", 1]] + [["swap"], ["steps", 1]] * (10 if tier == "quick" else 40)
+                                          + [["return"], ["shutdown"]], delays=[0.0] * 4)))
     if tier == "thorough":
         scen.append(("c03_n4_pca", dict(temps=[1, 2, 2, 4], starts=[[-3, 4], [4, -3], [0, 1], [3, 3]], kind="pca", display=False,
                                         seed=s + 32, prog=[["advance", 40, 3], ["return"], ["shutdown"]], delays=[0.0] * 4)))
@@ -122,7 +129,7 @@ def pt_part(ck, tier):
         ok, st, r, rejected = c08.validate_trace(ck, a, sc, label)
         ck.traces += 1
         if not ok:
-            ck.violation("ProbsBelong / hand-over under exchanges: trace of a real run rejected by PTTrace.tla",
+            ck.violation("exchange rule (accept iff u <= exp((b_i - b_j)(E_i - E_j))) / ProbsBelong / hand-over: trace of a real run rejected by PTTrace.tla",
                          {"scenario": label, "tlc": rejected or r.violated}, site="ParallelTempering.swap")
         else:
             ck.count("pt_exchanges", "accepted_with_different_energies", st["nontrivial_accepted"])
